@@ -243,14 +243,61 @@ static int updateLevelCorrection(KSI_Signature *sig, KSI_uint64_t rootLevel,
 	}
 
 
-	/* Get first aggregation hash chain first link. */
+	/* Get first aggregation hash chain. */
 	res = KSI_AggregationHashChainList_elementAt(sig->aggregationChainList, 0, &aggr);
 	if (res != KSI_OK) {
 		KSI_pushError(sig->ctx, res, NULL);
 		goto cleanup;
 	}
 
-	res = KSI_AggregationHashChain_getChain(aggr, &chain);
+	/* Find the chain in the signature base TLV. The chain object itself may be shared with the
+	 * object the signature is built from (e.g. an aggregation response): the level correction is
+	 * applied to a private copy extracted from the TLV, which then replaces the shared object. */
+	res = KSI_TLV_getNestedList(sig->baseTlv, &tlvList);
+	if (res != KSI_OK) {
+		KSI_pushError(sig->ctx, res, NULL);
+		goto cleanup;
+	}
+
+	for (i = 0; i < KSI_TLVList_length(tlvList); i++) {
+		KSI_TLV *t = NULL;
+
+		res = KSI_TLVList_elementAt(tlvList, i, &t);
+		if (res != KSI_OK) {
+			KSI_pushError(sig->ctx, res, NULL);
+			goto cleanup;
+		}
+
+		if (KSI_TLV_getTag(t) == 0x0801) {
+			res = KSI_AggregationHashChain_new(sig->ctx, &aggrFromTlv);
+			if (res != KSI_OK) {
+				KSI_pushError(sig->ctx, res, NULL);
+				goto cleanup;
+			}
+
+			res = KSI_TlvTemplate_extract(sig->ctx, aggrFromTlv, t, KSI_TLV_TEMPLATE(KSI_AggregationHashChain));
+			if (res != KSI_OK) {
+				KSI_pushError(sig->ctx, res, NULL);
+				goto cleanup;
+			}
+
+			if (KSI_AggregationHashChain_compare((const KSI_AggregationHashChain**)&aggr, (const KSI_AggregationHashChain**)&aggrFromTlv) == 0) {
+				oldTlv = t;
+				break;
+			}
+
+			KSI_AggregationHashChain_free(aggrFromTlv);
+			aggrFromTlv = NULL;
+		}
+	}
+
+	if (oldTlv == NULL || aggrFromTlv == NULL) {
+		KSI_pushError(sig->ctx, res = KSI_INVALID_ARGUMENT, "Aggregation hash chain not found in the signature.");
+		goto cleanup;
+	}
+
+	/* Get the first link of the private copy. */
+	res = KSI_AggregationHashChain_getChain(aggrFromTlv, &chain);
 	if (res != KSI_OK) {
 		KSI_pushError(sig->ctx, res, NULL);
 		goto cleanup;
@@ -295,58 +342,28 @@ static int updateLevelCorrection(KSI_Signature *sig, KSI_uint64_t rootLevel,
 	KSI_Integer_free(oldLvl);
 	oldLvl = NULL;
 
-
-	/* Replace the the updated aggregation hash chain in the signature base TLV. */
+	/* Serialize the updated aggregation hash chain. */
 	res = KSI_TLV_new(sig->ctx, 0x0801, 0, 0, &newTlv);
 	if (res != KSI_OK) {
 		KSI_pushError(sig->ctx, res, NULL);
 		goto cleanup;
 	}
 
-	res = KSI_TlvTemplate_construct(sig->ctx, newTlv, aggr, KSI_TLV_TEMPLATE(KSI_AggregationHashChain));
+	res = KSI_TlvTemplate_construct(sig->ctx, newTlv, aggrFromTlv, KSI_TLV_TEMPLATE(KSI_AggregationHashChain));
 	if (res != KSI_OK) {
 		KSI_pushError(sig->ctx, res, NULL);
 		goto cleanup;
 	}
 
-	res = KSI_TLV_getNestedList(sig->baseTlv, &tlvList);
+	/* The updated copy takes the place of the chain object in the signature ... */
+	res = KSI_AggregationHashChainList_replaceAt(sig->aggregationChainList, 0, aggrFromTlv);
 	if (res != KSI_OK) {
 		KSI_pushError(sig->ctx, res, NULL);
 		goto cleanup;
 	}
+	aggrFromTlv = NULL;
 
-	for (i = 0; i < KSI_TLVList_length(tlvList); i++) {
-		KSI_TLV *t = NULL;
-
-		res = KSI_TLVList_elementAt(tlvList, i, &t);
-		if (res != KSI_OK) {
-			KSI_pushError(sig->ctx, res, NULL);
-			goto cleanup;
-		}
-
-		if (KSI_TLV_getTag(t) == 0x0801) {
-			res = KSI_AggregationHashChain_new(sig->ctx, &aggrFromTlv);
-			if (res != KSI_OK) {
-				KSI_pushError(sig->ctx, res, NULL);
-				goto cleanup;
-			}
-
-			res = KSI_TlvTemplate_extract(sig->ctx, aggrFromTlv, t, KSI_TLV_TEMPLATE(KSI_AggregationHashChain));
-			if (res != KSI_OK) {
-				KSI_pushError(sig->ctx, res, NULL);
-				goto cleanup;
-			}
-
-			if (KSI_AggregationHashChain_compare((const KSI_AggregationHashChain**)&aggr, (const KSI_AggregationHashChain**)&aggrFromTlv) == 0) {
-				oldTlv = t;
-				break;
-			}
-
-			KSI_AggregationHashChain_free(aggrFromTlv);
-			aggrFromTlv = NULL;
-		}
-	}
-
+	/* ... and in the signature base TLV. */
 	res = KSI_TLV_replaceNestedTlv(sig->baseTlv, oldTlv, newTlv);
 	if (res != KSI_OK) {
 		KSI_pushError(sig->ctx, res, NULL);
